@@ -29,6 +29,8 @@ EXPLANATION = (
 )
 TECHNIQUE += '; identity-shortcut predicate check'
 EXPLANATION += ' Added: (R5) prepare_unrestricted_aminusb returns the unconverted object only under the documented nothing-to-do tests.'
+TECHNIQUE += '; evaluation of convert_to_unrestricted on abstract restricted orbitals'
+EXPLANATION += ' R3 no longer matches the constructor template: convert_to_unrestricted is interpreted on abstract restricted orbitals (explicit occs_aminusb, missing optional arrays, no occupations, six constant occupation patterns) and every alpha/beta view, nelec, spinpol and the orbital counts of the result are compared with those of the input; identity on unrestricted input and ValueError on generalized input are evaluated the same way.'
 TRUSTED = ["CPython ast parser", "attrs.evolve copies all fields not named", "np.concatenate keeps the order of its inputs"]
 
 
@@ -167,49 +169,8 @@ def run(ctx):
         ctx.violate("R2", "prepare_segmented does not call convert_to_segmented exactly once", ps, ps.node, construct="convert call")
 
     # ------------------------------------------------------------------ R3
-    ctx.rule("R3", "un-restriction duplicates the spatial orbitals with the alpha and beta occupations", "the unrestricted copy has swapped / truncated spin blocks or loses optional arrays")
-    m = cu.posparams[0]
-    body = [s for s in cu.body if not (isinstance(s, ast.Expr) and isinstance(s.value, ast.Constant))]
-    g0 = body[0] if body else None
-    g1 = body[1] if len(body) > 1 else None
-    if isinstance(g0, ast.If) and src_of(g0.test).replace('"', "'") == f"{m}.kind == 'generalized'" and isinstance(g0.body[0], ast.Raise) and raises_class(g0.body[0]) == "ValueError":
-        ctx.ok("R3", "generalized orbitals raise ValueError", f"{cu.module.relpath}:{g0.lineno}")
-    else:
-        ctx.violate("R3", "convert_to_unrestricted does not start by rejecting generalized orbitals with ValueError", cu, g0 or cu.node)
-    if isinstance(g1, ast.If) and src_of(g1.test).replace('"', "'") == f"{m}.kind == 'unrestricted'" and isinstance(g1.body[0], ast.Return) and src_of(g1.body[0].value) == m:
-        ctx.ok("R3", "unrestricted orbitals are returned as they are (idempotent)", f"{cu.module.relpath}:{g1.lineno}")
-    else:
-        ctx.violate("R3", "convert_to_unrestricted does not return unrestricted orbitals unchanged", cu, g1 or cu.node)
-    ctor = [c for c in cu.calls if c.cls is mo_cls.__class__ or (c.cls is not None and c.cls.name == "MolecularOrbitals")]
-    rets = [n for n in cu.own_nodes() if isinstance(n, ast.Return)]
-    if len(ctor) == 1 and rets and rets[-1].value is ctor[0].node:
-        call = ctor[0].node
-        fields = list(mo_cls.fields)
-        bound = {}
-        for i, arg in enumerate(call.args):
-            bound[fields[i]] = arg
-        for kw in call.keywords:
-            bound[kw.arg] = kw.value
-        cat = "np.concatenate"
-        want = {
-            "kind": "'unrestricted'",
-            "norba": f"{m}.norba",
-            "norbb": f"{m}.norbb",
-            "occs": f"None if {m}.occs is None else {cat}([{m}.occsa, {m}.occsb])",
-            "coeffs": f"None if {m}.coeffs is None else {cat}([{m}.coeffs, {m}.coeffs], axis=1)",
-            "energies": f"None if {m}.energies is None else {cat}([{m}.energies, {m}.energies])",
-            "irreps": f"None if {m}.irreps is None else {cat}([{m}.irreps, {m}.irreps])",
-        }
-        for f, w in want.items():
-            got = src_of(bound[f]).replace('"', "'") if f in bound else None
-            if got == w:
-                ctx.ok("R3", f"{f} = {w}", f"{cu.module.relpath}:{call.lineno}", sample=(f in ("occs", "coeffs")))
-            else:
-                ctx.violate("R3", f"unrestricted orbitals are built with {f} = `{got}`, expected `{w}`", cu, bound.get(f, call), construct=f"{f} = {got}")
-        if "occs_aminusb" in bound and not (isinstance(bound["occs_aminusb"], ast.Constant) and bound["occs_aminusb"].value is None):
-            ctx.violate("R3", "occs_aminusb is passed to unrestricted orbitals", cu, call, construct="occs_aminusb passed")
-    else:
-        ctx.violate("R3", "convert_to_unrestricted does not return a single MolecularOrbitals(...) construction", cu, cu.node, construct="constructor return")
+    ctx.rule("R3", "un-restriction keeps the alpha and beta occupations, coefficients, energies and irreps; idempotent; generalized rejected", "the unrestricted copy has swapped / truncated spin blocks, other occupations, or loses optional arrays")
+    _check_unrestriction(ctx, cu, mo_cls)
 
     # ------------------------------------------------------------------ R4
     ctx.rule("R4", "generalized (two-component) orbitals are rejected before any conversion", "generalized orbitals reach a writer or converter that treats them as spin blocks")
@@ -256,3 +217,73 @@ def run(ctx):
     from .guards import check_aminusb_predicate
 
     check_aminusb_predicate(ctx, "R5")
+
+
+def _check_unrestriction(ctx, cu, mo_cls):
+    """Evaluate convert_to_unrestricted on abstract restricted orbitals and compare every view of the result."""
+    import numpy as np
+
+    from ..accessors import AccessorEval, Raised, Rec
+    from ..symarr import NotSymbolic, sym_array
+    from .c12_semantics import _eq
+
+    prog = ctx.prog
+
+    def ev():
+        e = AccessorEval(prog, mo_cls)
+        e.module = cu.module
+        return e
+
+    def mk(kind="restricted", occs="sym", aminusb="sym", coeffs=True, energies=True, irreps=True):
+        o = sym_array("o", (3,)) if occs == "sym" else (None if occs is None else np.array(occs, dtype=float))
+        d = sym_array("d", (3,)) if aminusb == "sym" else None
+        n = 3 if kind != "unrestricted" else 6
+        return Rec(mo_cls, kind=kind, norba=3, norbb=3, occs=(sym_array("o", (n,)) if kind == "unrestricted" else o), coeffs=sym_array("c", (2, n)) if coeffs else None, energies=sym_array("e", (n,)) if energies else None, irreps=[chr(65 + i) for i in range(n)] if irreps else None, occs_aminusb=d if kind == "restricted" else None)
+
+    where = f"{cu.module.relpath}:{cu.lineno}"
+    cases = [("explicit occs_aminusb", dict()), ("missing optional arrays", dict(coeffs=False, energies=False, irreps=False)), ("no occupations", dict(occs=None, aminusb=None))]
+    for occs in ([2.0, 1.0, 0.0], [2.0, 2.0, 0.0], [1.8, 0.2, 0.0], [1.0, 1.0, 1.0], [0.9999999, 1.0000001, 0.0], [2.0, 1.0 - 1e-9, 1e-9]):
+        cases.append((f"heuristic occupations {occs}", dict(occs=occs, aminusb=None)))
+    try:
+        for label, kw in cases:
+            src = mk(**kw)
+            ref = src.clone()
+            new = ev().run_free(cu, [src], {})
+            if not isinstance(new, Rec):
+                ctx.violate("R3", f"{label}: convert_to_unrestricted does not return orbitals", cu, cu.node, construct=f"unrestriction {label}: result")
+                continue
+            bad = None
+            if new.fields.get("kind") != "unrestricted":
+                bad = f"kind is {new.fields.get('kind')!r}"
+            elif new.fields.get("occs_aminusb") is not None:
+                bad = "occs_aminusb is set on unrestricted orbitals"
+            else:
+                for view in ("occsa", "occsb", "coeffsa", "coeffsb", "energiesa", "energiesb", "irrepsa", "irrepsb", "nelec", "spinpol", "norba", "norbb"):
+                    a, b = ev().get(ref, view), ev().get(new, view)
+                    if view.startswith("irreps") and a is not None and b is not None:
+                        a, b = list(a), list(b)
+                    if not _eq(a, b):
+                        bad = f"`{view}` of the unrestricted copy is {str(b)[:60]}, the restricted orbitals give {str(a)[:60]}"
+                        break
+            if bad is None and any(not _eq(src.fields[k], ref.fields[k]) for k in ref.fields if k not in ("kind",)):
+                bad = "the restricted orbitals passed in were modified"
+            if bad:
+                ctx.violate("R3", f"restricted -> unrestricted ({label}): {bad}", cu, cu.node, construct=f"unrestriction {label}: {bad}"[:200])
+            else:
+                ctx.ok("R3", f"restricted -> unrestricted ({label}): occsa/occsb, coeffsa/b, energiesa/b, irrepsa/b, nelec, spinpol, norba/norbb are unchanged", where)
+        u = mk(kind="unrestricted", aminusb=None)
+        if ev().run_free(cu, [u], {}) is u:
+            ctx.ok("R3", "unrestricted orbitals are returned as the very same object (idempotent)", where)
+        else:
+            ctx.violate("R3", "convert_to_unrestricted does not return unrestricted orbitals unchanged", cu, cu.node, construct="unrestriction idempotence")
+        g = Rec(mo_cls, kind="generalized", norba=None, norbb=None, occs=sym_array("o", (4,)), coeffs=sym_array("c", (4, 4)), energies=None, irreps=None, occs_aminusb=None)
+        try:
+            ev().run_free(cu, [g], {})
+            ctx.violate("R3", "convert_to_unrestricted accepts generalized orbitals", cu, cu.node, construct="unrestriction generalized")
+        except Raised as r:
+            if r.cls == "ValueError":
+                ctx.ok("R3", "generalized orbitals raise ValueError", where)
+            else:
+                ctx.violate("R3", f"generalized orbitals raise {r.cls}, documented ValueError", cu, cu.node, construct="unrestriction generalized")
+    except NotSymbolic as exc:
+        raise AnalysisError(f"convert_to_unrestricted is outside the accessor-evaluation whitelist: {exc}") from exc
